@@ -1,6 +1,9 @@
 """C28 — OUT boundary detection marks first/last bytes and delays completion.
 
-DUT: luna.gateware.usb.stream.USBOutStreamBoundaryDetector, stand-alone, "usb" domain.
+DUT: luna.gateware.usb.stream.USBOutStreamBoundaryDetector, stand-alone, in the default domain, domain="usb" given
+explicitly, domain="sync" or another name ("ss"/"fast"/"rx"): the Bench clocks the requested domain, "usb"/"sync" stay alive
+as bystanders on unrelated clocks (rv.sim.with_bystanders), so a part of the block left in "usb" would misbehave visibly;
+a design that does not contain the requested domain at all is reported as `requested_domain_not_used`.
 
 Workload (per case 40-90 packets, explicit per-cycle schedule): packet lengths 0..70 biased to 1/2/3, byte-gap
 profiles (dense, random, one long stall, fixed k incl. the real FS-at-60MHz spacing of 39), lead-in cycles
@@ -8,8 +11,10 @@ profiles (dense, random, one long stall, fixed k incl. the real FS-at-60MHz spac
 gaps down to a single cycle, random garbage on `payload` whenever `next` is low, and complete_in / invalid_in
 pulses at every position of the packet: on the cycle `valid` falls (what the real receiver does), on the final
 byte, early, at random cycles, several pulses per packet, 2-3 cycle wide pulses, both kinds in one packet.
-"Loose" strobes (idle line, lead-in, the cycle of the very first byte, after `valid` fell) are generated in a
-minority of cases.
+"Loose" strobes (idle line, lead-in, after `valid` fell) are generated in a minority of cases.  Added after the
+coverage audit: `next` toggling while `valid` is low (40 % of the cases; not a byte, bytes are valid & next), strobes in
+the very cycle of the first byte (judged: the packet has begun), and as the final pair of 30 % of the cases a packet whose
+first byte arrives in the cycle right after a one-cycle gap (valid and next rise together).
 
 Monitor: every cycle samples the inputs the DUT saw and the outputs; it rebuilds the input packets from the sampled
 inputs (not from the driver's bookkeeping), records output byte events (processed_stream.valid & next) with
@@ -21,18 +26,21 @@ Oracle (post-hoc over the recorded history, written from the statement):
   * `first` set exactly on byte 0 of each packet, `last` exactly on the final byte;
   * complete_out / invalid_out are never high from the first output byte of a packet through its last output byte
     (i.e. also not in the cycle of the last byte) — "only after the last byte";
-  * a strobe kind seen inside the packet window (cycle after the first byte ... cycle in which `valid` is first
+  * a strobe kind seen inside the packet window (cycle of the first byte ... cycle in which `valid` is first
     sampled low, inclusive) is reported exactly once (one assertion) after the packet's last output byte and
     before the next packet's first output byte, within 8 cycles; a kind not seen is not reported.
 
-Not judged: whether loose strobes (outside the window, including the cycle of the very first byte of a packet —
-the unchanged code drops a strobe coinciding with the first byte; the statement only speaks of reporting *after*
-the last byte, so this is recorded as unjudged, not as a violation) are reported or dropped: they only widen the
-allowed count of the neighbouring packets. first/last values while no byte is output.  Zero-byte packets (valid
+Findings on the unchanged tree (known_findings.d/C28.json, findings/C28.md), each with its own narrow mechanism: a strobe
+pulsed *only* in the first-byte cycle is dropped (`strobe_in_first_byte_cycle_dropped`); the first byte of a packet that
+starts in the cycle right after a one-cycle gap is lost (`first_byte_lost_right_after_one_cycle_gap`; that pair is the
+last thing in a schedule, and the rest of the history is judged without it).
+
+Not judged: whether loose strobes (outside the window) are reported or dropped: they only widen the
+allowed count of the neighbouring packets.  Width of the complete_out/invalid_out pulses, processed_stream.valid by itself. first/last values while no byte is output.  Zero-byte packets (valid
 pulse without any `next`) must produce no output byte; strobes during them are loose.  Exact latency (only
 causality and the 8-cycle bound).
 """
-from rv.sim import Bench
+from rv.sim import Bench, with_bystanders
 
 PROPERTY = "C28"
 CASES = {"quick": 176, "thorough": 3200}
@@ -42,10 +50,12 @@ RULE = ("case = 40-90 packets on the unprocessed stream: length 0..70 (biased to
         "1-byte packet, a strobe on the fall cycle, an early strobe and a min-gap packet pair; distinct = hash of the per-cycle schedule")
 REQUIRED_BINS = ["len_1", "len_2", "len_ge_32", "len_0", "lead_0", "lead_ge_2", "gap_1", "trail_ge_1", "byte_gaps",
                  "strobe_on_fall_cycle", "strobe_on_last_byte", "strobe_early", "strobe_multiple", "strobe_wide", "strobe_both_kinds",
-                 "strobe_none", "invalid_strobe", "loose_strobe", "len_1_with_strobe", "min_spacing_after_strobe"]
+                 "strobe_none", "invalid_strobe", "loose_strobe", "len_1_with_strobe", "min_spacing_after_strobe",
+                 "next_without_valid", "strobe_on_first_byte", "byte_right_after_one_cycle_gap",
+                 "domain_default", "domain_explicit_usb", "domain_sync", "domain_other"]
 REQUIRED_EVENTS = ["packets_judged", "bytes_compared", "first_flags_seen", "last_flags_seen", "complete_out_seen", "invalid_out_seen",
                    "strobes_required", "cycles_monitored"]
-ASSUMPTIONS = ["a strobe in the same cycle as the first byte of a packet, during lead-in, on the idle line or after valid fell is 'loose': "
+ASSUMPTIONS = ["a strobe during lead-in, on the idle line or after valid fell is 'loose': "
                "it may be reported or dropped (only the upper bound of the neighbouring packets is widened)",
                "byte events are processed_stream.valid & processed_stream.next; first/last are judged only on byte events",
                "latency is bounded (8 cycles after valid falls) but otherwise unconstrained"]
@@ -72,8 +82,15 @@ def gen_schedule(rng, res):
             return rng.randrange(256)
         return const
 
+    stray_next = rng.random() < 0.4      # `next` toggles while `valid` is low (not a byte: bytes are valid & next)
+    if stray_next:
+        res.bin("case_with_next_without_valid")
+
     def idle_cycle(c=0, i=0):
-        sched.append([0, 0, rng.randrange(256), c, i])
+        nx = 1 if (stray_next and rng.random() < 0.5) else 0
+        if nx:
+            res.bin("next_without_valid")
+        sched.append([0, nx, rng.randrange(256), c, i])
 
     for _ in range(rng.randint(1, 4)):
         idle_cycle()
@@ -156,8 +173,16 @@ def gen_schedule(rng, res):
         win = list(range(first + 1, fall + 1))       # cycles that count as "during the packet"
         s = rng.random()
         kinds = []
-        if s < 0.16:
+        if s < 0.13:
             res.bin("strobe_none")
+        elif s < 0.20:
+            # in the very cycle of the first byte: the packet has begun, so this is "during the packet"
+            kind = rng.choice([3, 4])
+            sched[first][kind] = 1
+            kinds.append(kind)
+            if rng.random() < 0.3 and win:
+                sched[rng.choice(win)][kind] = 1
+            res.bin("strobe_on_first_byte")
         elif s < 0.42:
             kind = 3 if rng.random() < 0.65 else 4
             sched[fall][kind] = 1
@@ -209,27 +234,57 @@ def gen_schedule(rng, res):
             if n == 1:
                 res.bin("len_1_with_strobe")
         if loose_case and rng.random() < 0.4:
-            where = rng.choice(["firstbyte", "lead", "after", "idle"])
+            where = rng.choice(["lead", "after", "idle"])
             kind = rng.choice([3, 4])
-            if where == "firstbyte":
-                sched[first][kind] = 1
-            elif where == "lead" and lead:
+            if where == "lead" and lead:
                 sched[rng.randrange(start, start + lead)][kind] = 1
             elif where == "after":
                 sched[min(fall + 1, len(sched) - 1)][kind] = 1
             else:
                 sched[rng.randrange(fall + 1, len(sched)) if fall + 1 < len(sched) else fall][kind] = 1
             res.bin("loose_strobe")
+    if rng.random() < 0.3:
+        # final pair: a packet, ONE cycle with valid low, and the next packet's first byte in the very next cycle
+        # (valid and next rise together).  Kept at the end of the schedule so that a loss does not disturb the rest.
+        sched.append([0, 0, rng.randrange(256), 0, 0])
+        sched.append([1, 0, rng.randrange(256), 0, 0])
+        for n in (rng.randint(1, 6), rng.randint(2, 6)):
+            for j in range(n):
+                for _ in range(rng.choice([0, 0, 1])):
+                    sched.append([1, 0, rng.randrange(256), 0, 0])
+                sched.append([1, 1, nextbyte(), 0, 0])
+            sched.append([0, 0, rng.randrange(256), rng.choice([0, 1]), 0])
+        res.bin("byte_right_after_one_cycle_gap")
     for _ in range(BOUND + 6):
-        idle_cycle()
+        sched.append([0, 0, rng.randrange(256), 0, 0])
     return sched
 
 
 def run_case(rng, tier, res):
     from luna.gateware.usb.stream import USBOutStreamBoundaryDetector
-    dut = USBOutStreamBoundaryDetector()
     sched = gen_schedule(rng, res)
-    b = Bench(dut, domain="usb", freq=60e6, max_cycles=len(sched) + 10)
+    # clock domain the detector is asked to live in: default ("usb"), "usb" given explicitly, "sync", or another name.
+    # The Bench clocks the requested domain; "usb" (and "sync") are kept alive as bystanders on unrelated clocks, so a
+    # part of the block that stays in "usb" although another domain was requested misbehaves visibly.
+    dom_mode = rng.choice(["default", "default", "explicit_usb", "sync", "other", "other"])
+    if dom_mode in ("default", "explicit_usb"):
+        dut = USBOutStreamBoundaryDetector() if dom_mode == "default" else USBOutStreamBoundaryDetector(domain="usb")
+        b = Bench(dut, domain="usb", freq=60e6, max_cycles=len(sched) + 10)
+    else:
+        dname = "sync" if dom_mode == "sync" else rng.choice(["ss", "fast", "rx"])
+        dut = USBOutStreamBoundaryDetector(domain=dname)
+        others = [d for d in ("usb", "sync") if d != dname]
+        try:
+            b = Bench(with_bystanders(dut, *others), domain=dname, freq=60e6,
+                      clocks={d: rng.choice([17e6, 48e6, 120e6, 200e6]) for d in others}, max_cycles=len(sched) + 10)
+        except (NameError, ValueError) as e:
+            if "not present" not in str(e):
+                raise
+            res.bin("domain_" + dom_mode)
+            res.violation("requested_domain_not_used", "USBOutStreamBoundaryDetector(domain=%r): %s" % (dname, e))
+            return
+    res.bin("domain_" + dom_mode)
+    res.sig(dom_mode)
     i_s, o_s = dut.unprocessed_stream, dut.processed_stream
     ins = [i_s.valid, i_s.next, i_s.payload, dut.complete_in, dut.invalid_in]
     outs = [o_s.valid, o_s.next, o_s.payload, dut.first, dut.last, dut.complete_out, dut.invalid_out]
@@ -262,15 +317,14 @@ def run_case(rng, tier, res):
         if iv:
             if inx:
                 if pkt is None:
-                    pkt = cur["pkt"] = {"bytes": [], "cyc": [], "first_cyc": cyc, "fall": None, "c": False, "i": False}
-                    # strobe on the very first byte cycle: loose
-                    if ci:
-                        loose["c"].append(cyc)
-                    if ii:
-                        loose["i"].append(cyc)
+                    # the packet begins with this byte: a strobe in this cycle is already "during the packet"
+                    pkt = cur["pkt"] = {"bytes": [], "cyc": [], "first_cyc": cyc, "fall": None, "c": bool(ci), "i": bool(ii),
+                                        "c_late": False, "i_late": False}
                 else:
                     pkt["c"] |= bool(ci)
                     pkt["i"] |= bool(ii)
+                    pkt["c_late"] |= bool(ci)
+                    pkt["i_late"] |= bool(ii)
                 pkt["bytes"].append(ip)
                 pkt["cyc"].append(cyc)
             else:
@@ -282,11 +336,15 @@ def run_case(rng, tier, res):
                 else:
                     pkt["c"] |= bool(ci)
                     pkt["i"] |= bool(ii)
+                    pkt["c_late"] |= bool(ci)
+                    pkt["i_late"] |= bool(ii)
             cur["active"] = True
         else:
             if pkt is not None:
                 pkt["c"] |= bool(ci)
                 pkt["i"] |= bool(ii)
+                pkt["c_late"] |= bool(ci)
+                pkt["i_late"] |= bool(ii)
                 pkt["fall"] = cyc
                 packets.append(pkt)
                 cur["pkt"] = None
@@ -330,6 +388,24 @@ def judge(res, packets, out_bytes, out_strobe, loose, end_cycle):
     for k, p in enumerate(packets):
         for j, (v, c) in enumerate(zip(p["bytes"], p["cyc"])):
             flat.append((k, j, v, c))
+    # A packet whose first byte arrives in the cycle right after a one-cycle gap: if exactly that byte is missing from the
+    # output (and nothing else is wrong with the byte sequence), report it under its own mechanism and judge the rest
+    # of the history without that packet.
+    tight = [k for k in range(1, len(packets)) if packets[k]["first_cyc"] == packets[k - 1]["fall"] + 1]
+    if tight and len(out_bytes) < len(flat):
+        k0 = tight[0]
+        minus = [f for f in flat if not (f[0] == k0 and f[1] == 0)]
+        if [o[1] for o in out_bytes] == [f[2] for f in minus] and k0 == len(packets) - 1:
+            p0 = packets[k0]
+            res.violation("first_byte_lost_right_after_one_cycle_gap", "packet#%d len=%d: valid fell @%d, valid&next rose @%d with byte %#x, "
+                          "which never appears on the processed stream (the following bytes do)" % (
+                              k0, len(p0["bytes"]), packets[k0 - 1]["fall"], p0["first_cyc"], p0["bytes"][0]))
+            nb0 = len(p0["bytes"]) - 1
+            packets = packets[:k0]
+            flat = [f for f in flat if f[0] < k0]
+            out_bytes = out_bytes[:len(out_bytes) - nb0]
+            out_strobe = {kk: [iv for iv in vv if iv[0] < p0["fall"]] for kk, vv in out_strobe.items()}
+            end_cycle = p0["fall"] - 1
     n_in, n_out = len(flat), len(out_bytes)
     t_first, t_last = {}, {}
     aligned = True
@@ -401,7 +477,10 @@ def judge(res, packets, out_bytes, out_strobe, loose, end_cycle):
             if required:
                 res.event("strobes_required")
             n_loose = sum(1 for c in lo if prev_fall < c <= nxt_in_first)
-            if len(got) < required:
+            if len(got) < required and not p[key + "_late"]:
+                res.violation("strobe_in_first_byte_cycle_dropped", "%s %s_in pulsed only in the cycle of the packet's first byte; no %s_out "
+                              "between @%d and @%d" % (ctx, name, name, tl, nxt_first))
+            elif len(got) < required:
                 res.violation("%s_strobe_dropped" % name, "%s %s_in seen during the packet but no %s_out between @%d and @%d" %
                               (ctx, name, name, tl, nxt_first))
             elif len(got) > required + n_loose:
